@@ -102,6 +102,19 @@ Theorem C34_options :
     effective_n ca v1 n n_rel = effective_n ca v2 n n_rel /\ effective_n true v1 n n_rel = Some n_rel.
 Proof. intros; split; reflexivity. Qed.
 
+(* Gauss quadrature with discarded nodes (stochastic_logdet_from_lanczos): the zero eigenvalues of a tridiagonal
+   that was zero-padded after a Lanczos breakdown do not enter, whatever f(0) is *)
+Theorem C34_quadrature_ignores_padding :
+  forall (tol : Q) (nodes pad : list (Q * Q * Q)),
+    (0 < tol)%Q -> Forall (fun n => (fst (fst n) == 0)%Q) pad ->
+    (gauss_sum tol (nodes ++ pad) == gauss_sum tol nodes)%Q.
+Proof. exact gauss_sum_padding. Qed.
+
+(* analytic prior term: Tr(Lambda^-1) from data-space eigenvalues needs the +1 of the RESOLVED space *)
+Theorem C34_trace_inv_spaces :
+  forall evs : list Q, (trace_inv_exact true evs == trace_inv_exact false (map (fun e => e + 1) evs))%Q.
+Proof. exact trace_inv_spaces. Qed.
+
 (* non-vacuity: a resumed and a fresh schedule (the Lanczos hypotheses are exercised with Q^n and
    generated SPD matrices by the correspondence on every check run) *)
 Example C34_batches_example : batches 7 3 4 = [1; 2]%nat /\ batches 7 3 0 = [3; 2; 2]%nat.
